@@ -592,6 +592,11 @@ theorem published_landmarkChain_sound (e : Env) (k : Nat) (p : Pat) (sc : SymCha
   rw [this, h1]
   exact landmarkFact_sublist _ _ h2 _ _ hF
 
+/-- the hypotheses of `published_landmarkChain_sound` are met by Lean's own chain with its second landmark
+    dropped (any sublist of the later landmarks will do) -/
+example (e : Env) (ls : List (List SymAlt)) : List.Sublist (lmOf e ls.tail) (lmOf e ls) := by
+  unfold lmOf; exact (List.tail_sublist ls).map _
+
 /-- `[xy]*\s*ab(?:cd|c)z` (4 children): loop over {x, y}; landmarks `\s*ab`, `cd | c`, `z` -/
 def lmPat : Pat :=
   .seq (.quant false 0 none (.chr (.set (.base false [(120, 121)] []) false)))
